@@ -202,7 +202,8 @@ func HaproxyEndpointFormat(
 }
 
 func isPathParameter(urlPart string) bool {
-	return len(urlPart) > 2 && strings.HasPrefix(urlPart, "{") && strings.HasSuffix(urlPart, "}")
+	// same predicate as urltree.TryExtractPathParameter: `{}` (empty name) is a parameter there too
+	return strings.HasPrefix(urlPart, "{") && strings.HasSuffix(urlPart, "}")
 }
 
 func ManageHAProxyEndpoints(haproxyEndpoints *HAProxyEndpointsRequest) error {
